@@ -224,7 +224,11 @@ def gen_history(rng, pools, tier):
         # should be) keyed by, the same strings recur under each variant, few languages
         focus = rng.choice(["SKIP_TOKENS", "SKIP_TOKENS", "NORMALIZE", "DATE_ORDER", "PREFER_LOCALE_DATE_ORDER", "DEFAULT_LANGUAGES", "PARSERS", "CACHE_SIZE_LIMIT", "STRICT_PARSING", "PREFER_DATES_FROM", "RELATIVE_BASE", "RELATIVE_BASE", "TIMEZONE", "PREFER_DAY_OF_MONTH"])
         langs = langs[: rng.choice([1, 1, 2])]
+        if focus in ("DATE_ORDER", "PREFER_LOCALE_DATE_ORDER") and rng.random() < 0.5 and "tl" not in langs:
+            langs = (["tl"] + langs)[:2]  # the only language without a date order of its own
         base = {} if rng.random() < 0.6 else {k: v for k, v in draw_settings(rng, langs).items() if k != focus}
+        if focus != "CACHE_SIZE_LIMIT" and rng.random() < 0.35:
+            base["CACHE_SIZE_LIMIT"] = rng.choice([1, 1, 2])  # evictions while the variants alternate
         vals = {
             "SKIP_TOKENS": [["foo"], ["bar"], ["t"], ["foo", "bar"], []], "NORMALIZE": [True, False], "DATE_ORDER": ORDERS, "PREFER_LOCALE_DATE_ORDER": [True, False],
             "DEFAULT_LANGUAGES": [[l] for l in (langs + ["en", "fr"])[:3]], "PARSERS": PARSER_SETS, "CACHE_SIZE_LIMIT": CACHE_LIMITS, "STRICT_PARSING": [True, False],
@@ -325,6 +329,8 @@ def gen_history(rng, pools, tier):
         # else: autodetect (default parser)
         if var is not None:
             kw["settings"] = copy.deepcopy(var)
+            if rng.random() < 0.06 and "RELATIVE_BASE" not in var:
+                kw["settings_obj"] = kw.pop("settings")
         if rng.random() < 0.12:
             kw["date_formats"] = [rng.choice(["%d %B %Y", "%d/%m/%Y", "%H:%M", "%B %Y", "%Y"])]
         elif rng.random() < 0.06:
@@ -385,7 +391,17 @@ def gen_history(rng, pools, tier):
 def _decode_kw(kw):
     out = {}
     for k, v in kw.items():
-        out[k] = dec_value(v) if k == "settings" else copy.deepcopy(v)
+        if k == "__settings_instance__":
+            out["settings"] = v  # built by the caller beforehand (C20: before the threads start)
+        elif k == "settings_obj" and "__settings_instance__" in kw:
+            continue
+        elif k == "settings_obj":
+            # the caller passes a Settings *instance* (apply_settings accepts dict or Settings)
+            from dateparser.conf import settings as _default_settings
+
+            out["settings"] = _default_settings.replace(**dec_value(v))
+        else:
+            out[k] = dec_value(v) if k == "settings" else copy.deepcopy(v)
     return out
 
 
@@ -403,7 +419,7 @@ def exec_op(op, slots):
     clk.set(op["clock_us"], ["frozen"])
     world.refresh()
     kw = _decode_kw(op.get("kw", {}))
-    snap = copy.deepcopy(kw)
+    snap = copy.deepcopy({k: v for k, v in kw.items() if not (k == "settings" and ("settings_obj" in op.get("kw", {}) or "__settings_instance__" in op.get("kw", {})))})
     extra = None
     try:
         if kind == "parse":
@@ -438,7 +454,8 @@ def exec_op(op, slots):
         out = ["ok", canon_result(val)]
     except Exception as e:  # noqa
         out = ["exc", type(e).__name__]
-    mutated = enc_value(kw) != enc_value(snap) or repr(kw) != repr(snap)
+    kw_cmp = {k: v for k, v in kw.items() if k in snap}
+    mutated = enc_value(kw_cmp) != enc_value(snap) or repr(kw_cmp) != repr(snap)
     if extra is not None and extra != op.get("date_formats"):
         mutated = True
     return out, mutated
@@ -536,7 +553,7 @@ def oclass(o):
 
 def settings_of(op):
     kw = op.get("kw") or op.get("ctor") or {}
-    return kw.get("settings") or {}
+    return kw.get("settings") or kw.get("settings_obj") or {}
 
 
 def langs_of(op):
